@@ -12,7 +12,8 @@ SPEC = {
     "jobs": [Job("chain", "verifsim", "^TestVerifC02$", shards=(8, 16), timeout=(900, 3600))],
     "floors": {"proposals_with_filtered_txs": (20, 200), "burst_txs_admitted": (50, 500),
                "kind:proposed+IdentityUpdate+ValidationFinished": (2, 20), "included:type:Delegate": 5, "included:type:Kill": 2,
-               "included:type:Deploy": 5, "included:type:Call": 5, "included:fat:Send": 50, "proposals_near_or_over_gas_cap": 3, "exact_cap_proposals_with_tail_tx": (30, 300)},
+               "included:type:Deploy": 5, "included:type:Call": 5, "included:fat:Send": 50, "proposals_near_or_over_gas_cap": 3, "exact_cap_proposals_with_tail_tx": (30, 300),
+               "ceremony_pair_blocks": (20, 200), "ceremony_pair_earlier_tx_mined": (10, 100)},
     "parallel": 16,
     "assumptions": ["consensus config V12", "epoch results come from the synthetic epoch function (arbitrary well-formed results)"],
 }
